@@ -9,8 +9,8 @@ def ob(fn, pkg, what, qb="", tb=None, q=None, t=None, reach=("done",), terminati
     if termination: o["termination"] = True
     if no_validate: o["no_validate"] = True
     return o
-def check(pid, title, obs, assumptions=(), outside=()):
-    C[pid] = {"title": title, "obligations": obs, "assumptions": list(assumptions), "outside": list(outside)}
+def check(pid, title, obs, assumptions=(), outside=(), lemmas=()):
+    C[pid] = {"title": title, "obligations": obs, "assumptions": list(assumptions), "outside": list(outside), "lemmas": list(lemmas)}
 
 SIMFS = "simfs: os/filepath calls go to an in-engine file-system model (write appends to the file image, fsync moves the durable watermark, rename atomic, O_EXCL honoured; directory-entry durability assumed)"
 CLOCK = "time.Now is a strictly increasing concrete clock; tickers never fire by themselves"
@@ -106,7 +106,8 @@ check("C10", "log damage is contained", [
     ob("VerifC10_FlipByte", "pkg/wal", "one byte at every position replaced by a symbolic different value", "<=2 small entries, every position, every value", q={"budget_s": 300}),
     ob("VerifC10_DamageThenWriteThenRecover", "pkg/engine/storage", "storage.Manager on a log cut at every offset or with one byte altered: open succeeds, intact prefix recovered; a write acknowledged after the recovery and the recovered operations survive a clean close and a second open",
        "<=2 small entries, every cut offset, every position x every replacement value"),
-], [SIMFS, CLOCK, HASH, LOG, TIERA], ["multi-byte damage", "checksum collisions other than single-byte errors (ideal-checksum assumption)"])
+], [SIMFS, CLOCK, HASH, LOG, TIERA, "CRC-32 single-byte-error axiom instances are justified by lemmas/crc32_step.smt2 (step injective in state and in byte; discharged on every run) plus a three-line induction over the stream on paper"],
+   ["multi-byte damage", "checksum collisions other than single-byte errors (ideal-checksum assumption)"], lemmas=["crc32_step"])
 
 check("C11", "an SSTable reads back exactly what was written", [
     ob("VerifC11_RoundTripSmall", "pkg/sstable", "write <=3 ascending entries (value / empty value / deletion marker, arbitrary sequence numbers); iterate, Seek+Next*, SeekToLast, Get(symbolic q)",
@@ -130,6 +131,22 @@ check("C13", "a replica applies the primary's log in order, exactly once", [
     ob("VerifC13_SerializeRoundTrip", "pkg/replication", "Deserialize(Serialize(e)) = e for put/delete/merge with key/value lengths 0-2 and arbitrary sequence numbers; a payload cut at any point is rejected or denotes the same operation",
        "key/value lengths 0..2, every cut position"),
 ], [LOG, TIERA, "compression codecs: opaque pair Decompress(Compress(x)) = x, anything without the codec's frame magic is invalid"], ["codec internals", "gRPC framing", "the replica's timer-driven state machine (the data path is driven through processEntriesWithoutStateTransitions)"])
+
+check("C14", "a connected replica converges (reduced form: data path under an ideal link)", [
+    ob("VerifC14_DataPathConverges", "pkg/replication", "primary program (puts, deletes, a 2-entry batch, a flush) with a replica session joining before/between/after; real initial-send, push, poll and resend paths into a recording stream; messages fed in order to a real Replica applying through EngineApplier into a second engine with acks; link drained; probe key reads equal on both sides",
+       "<=2 primary steps, join point 0..n, <=3 poll rounds, 2 keys", "<=3 primary steps", q={"budget_s": 300}, t={"budget_s": 1800}),
+], [SIMFS, CLOCK, HASH, BLOOM, JSON, RAND, LOG, TIERA, "the link is ideal: every message the primary sends is delivered in order, retransmission requests are served at once"],
+   ["the 'within bounded time' clause", "the replica's timer-driven state machine, reconnect and restart timing", "TCP/gRPC behaviour", "codec internals"])
+
+check("C15", "replicas cannot stall or fail the primary (safety core)", [
+    ob("VerifC15_StalledReplicaDoesNotBlockClients", "pkg/replication", "a replica whose stream Send never returns (optionally next to a healthy one); one client write meets it; a second client's read / write must still complete",
+       "1-2 sessions, 2 client operations, preemption bound 1", q=P1, no_validate=True, reach=("probed",)),
+    ob("VerifC15_HeartbeatDropsSilentReplicas", "pkg/replication", "one step of the heartbeat monitor over two sessions with symbolic idle times and possibly failing streams: silent or failing replicas leave the reported topology, healthy ones stay and get a heartbeat",
+       "2 sessions, idle times < 24 h kept 1 s away from the limits"),
+    ob("VerifC15_FailingReplicaDoesNotFailWrites", "pkg/replication", "a replica whose stream fails on every send next to a healthy one: client writes succeed, the healthy replica is sent every write, the failing one is marked disconnected and not sent to again",
+       "<=2 writes"),
+], [SIMFS, CLOCK, HASH, BLOOM, RAND, LOG, "the gRPC stream is a harness fake whose Send records, fails, or never returns (vsym.BlockForever)", "Tier B scheduler for the stalled-stream obligation"],
+   ["latency ('normal time') and any wall-clock bound: only 'completes at all' is decided", "TCP-level stalls, keepalive, gRPC flow control", "more than two replicas"])
 
 check("C16", "a replica refuses client writes but keeps applying replicated ones", [
     ob("VerifC16_ReadOnlyRejects", "pkg/engine", "read-only EngineFacade: client mutators rejected, *Internal bypasses apply", "5 mutator shapes + bypasses"),
